@@ -403,6 +403,10 @@ def rule_v2(chk: Check) -> None:
     titan_samples = {
         "a fragment after the parameters (`...;size=5;mime=text/plain#frag`)": "titan://example.org/f;size=5;mime=text/plain#frag",
         "a user-info hidden by a `;` inside the authority (`titan://u;x@host/f;size=5`)": "titan://u;x@example.org/f;size=5",
+        # only the part before the first ';' reaches parse_url's TAB/CR/LF guard
+        "a bare LF inside a parameter (`...;size=5;mime=a<LF>b`)": "titan://example.org/f;size=5;mime=a\nb",
+        "a TAB after the parameters (`...;size=5;mime=text/plain<TAB>`)": "titan://example.org/f;size=5;mime=text/plain\t",
+        "a bare CR inside a parameter (`...;size=5;token=x<CR>y`)": "titan://example.org/f;size=5;token=x\ry",
     }
     for name, sample in titan_samples.items():
         interp = Interp(chk.proj, tf)
@@ -418,7 +422,7 @@ def rule_v2(chk: Check) -> None:
         bad = [p_ for k, p_ in ends if k != "raise:ValueError"]
         oks = bool(ends) and not bad
         if not oks:
-            chk.finding("V2", tf.key, f"titan-accepts:{name[:40]}", f"the Titan request parser does not raise ValueError on every path for a line with {name}: the line is cut at the first `;` before the user-info / fragment tests look at it, so it is dispatched to the upload handler", tf.loc(), g2.fmt_path(bad[0]) if bad else [])
+            chk.finding("V2", tf.key, f"titan-accepts:{name[:40]}", f"the Titan request parser does not raise ValueError on every path for a line with {name}: the line is cut at the first `;` and only the part before it goes through the URL checks (user-info, fragment, TAB/CR/LF), so it is dispatched to the upload handler", tf.loc(), g2.fmt_path(bad[0]) if bad else [])
         chk.ob("V2", f"Titan parser rejects {name}", oks, f"{len(ends)} feasible paths", evals=max(1, len(ends)))
     res = Interp(chk.proj, tf).run_paths(g2, lambda n: [], {line: lit("titan://example.org/f;size=5;mime=text/plain")}, follow=lambda lab: lab != "exc")
     okc = any(path[-1][0].kind == "exit" for path, _ in res)
